@@ -117,12 +117,19 @@ func verifC07Sys(id string, seed int64) *verifSys {
 				r := w.P[1].End()
 				w.push(1, r.Out)
 				w.deliverAll(10, nil)
+			} else if start == "ended" { // both have left the session just now (no 60 s have passed since the exchange)
+				r := w.P[0].End()
+				w.push(0, r.Out)
+				w.deliverAll(10, nil)
+				w.P[1].End()
 			} else {
 				m.WasEnc = true
 				m.OldSSID = w.P[0].C.ssid
 			}
-			verifTick(w.P[0].C)
-			verifTick(w.P[1].C)
+			if start != "ended" {
+				verifTick(w.P[0].C)
+				verifTick(w.P[1].C)
+			}
 			w.P[0].Rec.take()
 			w.P[1].Rec.take()
 		}
@@ -270,7 +277,7 @@ func init() {
 			r.Rule = "for each policy pair sharing a version × start state (plaintext, encrypted=refresh, one side finished) × trigger (query, whitespace tag, error-triggered restart, Send under required encryption) × initiator (A, B, both before any delivery): every interleaving of deliveries on two FIFO queues until quiescence (complete search, horizon 60 deliveries); oracle at quiescence: both encrypted, same SSID, new session on refresh, probe text readable both ways"
 			r.Assumptions = []string{"reliable FIFO network, no loss", "refresh scenarios start with the 60 s query-ignore window expired (virtual clock ticked)"}
 			pols := []string{"3-3", "2-2", "23-23", "23-2", "23-3", "2-23", "3-23"}
-			starts := []string{"plain", "enc", "fin"}
+			starts := []string{"plain", "enc", "fin", "ended"}
 			trigs := []string{"query", "ws", "err", "req"}
 			whos := []string{"A", "B", "A+B", "B+A"}
 			for _, p := range pols {
